@@ -2,9 +2,11 @@
    Proved here (all layouts / schemes / capacities / oracles): a message travels along next hops that
    end at its destination within three hops without revisiting a rank (Router.v, over the generated
    next_hop); a rank executes a received message iff it is addressed to it (or is a broadcast leg) and
-   otherwise re-buffers it unchanged for the next hop (RankMachine).  The global counting statement
-   (per-message balance over all ranks) is validated on every recorded run by the lock-step replay and
-   the exactly-once oracle; see DESIGN.md §5 C01 for what is proved and what is checked. *)
+   otherwise re-buffers it unchanged for the next hop (RankMachine); inside a rank queued == sent + buffered
+   (RankConserve); per rank, received == executed + forwarded + owed, by kind (RankAccount); over all ranks and at
+   every cut, originated == executed + pending in exactly one place, hence exactly once at quiescence (GlobalOnce; one
+   hypothesis about MPI: handed to MPI_Isend == delivered + still inside).  The lock-step replay and the exactly-once
+   oracle compare the model with the real library on every recorded run. *)
 From Coq Require Import ZArith List Bool Lia.
 Import ListNotations.
 From Ygm Require Import Gen.CArith Gen.Gen_layout Gen.Gen_router Layout Router RankMachine RankInv.
@@ -94,3 +96,100 @@ Example C01_conservation_not_vacuous :
             /\ enq s = [(1, {| uid := 7; mdest := 1; stage := 0; hk := 0; len := 40; extra := 0 |})]
             /\ sent_of (log s) = enq s.
 Proof. eexists. split; [vm_compute; reflexivity|]. split; reflexivity. Qed.
+
+
+(* EXACTLY ONCE, OVER ALL RANKS, AT EVERY CUT.  The ghost history of a rank machine records every MPI response consumed
+   (GResp), every handler started (GExec), every pair appended to a send buffer (GEnq; right after a GSend: an origination -
+   an async or broadcast leg issued here; otherwise: a forward).  Per rank, for every program, oracle and length, at the
+   end and whenever the rank is blocked in an MPI call: the received messages that address the rank are exactly the handlers
+   started plus those still owed from the buffer being processed; the other received messages are exactly the forwards
+   plus those owed; nothing else is executed or forwarded. *)
+From Ygm Require Import RankAccount GlobalOnce.
+Theorem C01_rank_accounts : forall c fuel nranks main orc,
+  match run_rank fuel c nranks main orc with
+  | Ok s' => A c [] s'
+  | Blocked s' => exists dd, A c dd s'
+  | _ => True
+  end.
+Proof. exact rank_accounts. Qed.
+Print Assumptions C01_rank_accounts.
+
+Theorem C01_account_every_procedure : forall c fu p s, specA c fu p s.
+Proof. exact account_all. Qed.
+Print Assumptions C01_account_every_procedure.
+
+Theorem C01_executes_only_what_addresses_it : forall c debt s u,
+  A c debt s -> In u (X (hist s)) -> exists m, In m (Rc (hist s)) /\ is_local c m = true /\ uid m = u.
+Proof. exact executes_only_what_addresses_it. Qed.
+Print Assumptions C01_executes_only_what_addresses_it.
+
+Theorem C01_queued_is_sent_plus_buffered_at_every_cut : forall c nr fuel main orc,
+  (forall d, rng nr d -> rng nr (next_hop c d)) ->
+  Forall (rng nr) (locals_of c) ->
+  Forall (rng nr) (Bcast.remote_partners_spec (c_n c) (c_p c) (c_me c)) ->
+  (forall u, forallb (dests_ok nr) (c_hprog c u) = true) ->
+  (forall i, forallb (dests_ok nr) (c_cbprog c i) = true) ->
+  forallb (dests_ok nr) main = true ->
+  Forall (resp_ok nr) orc ->
+  match run_rank fuel c nr main orc with
+  | Ok s' | Blocked s' => Permutation (enq s') (sent_of (log s') ++ buffered s')
+  | _ => True
+  end.
+Proof. exact rank_conserves_at_every_cut. Qed.
+Print Assumptions C01_queued_is_sent_plus_buffered_at_every_cut.
+
+(* The composition.  rs: all ranks at a cut, each satisfying what the two theorems above establish (acct); U: the messages
+   inside MPI.  Assumed of MPI: handed to MPI_Isend == delivered by completed receives + still inside (no loss, duplication
+   or alteration).  Then the uids of all originated messages are, as a multiset, the handlers started on all ranks plus the
+   messages pending in exactly one place.  With nothing pending - or merely as many handlers started as messages originated,
+   the barrier's criterion - every originated message has been executed exactly once and nothing else has. *)
+Theorem C01_every_message_accounted_once_at_every_cut : forall rs, Forall acct rs -> forall U,
+  Permutation (flat_map (fun r => map snd (sent_of (log (r_st r)))) rs) (flat_map (fun r => Rc (r_h r)) rs ++ U) ->
+  Permutation (originated rs) (executed rs ++ owed rs ++ map uid U ++ in_buffers rs).
+Proof. exact every_message_accounted_once_at_every_cut. Qed.
+Print Assumptions C01_every_message_accounted_once_at_every_cut.
+
+Theorem C01_exactly_once_at_quiescence : forall rs, Forall acct rs -> forall U,
+  Permutation (flat_map (fun r => map snd (sent_of (log (r_st r)))) rs) (flat_map (fun r => Rc (r_h r)) rs ++ U) ->
+  owed rs = [] -> U = [] -> in_buffers rs = [] -> Permutation (originated rs) (executed rs).
+Proof. exact exactly_once_at_quiescence. Qed.
+Print Assumptions C01_exactly_once_at_quiescence.
+
+Theorem C01_counts_equal_means_nothing_pending : forall rs, Forall acct rs -> forall U,
+  Permutation (flat_map (fun r => map snd (sent_of (log (r_st r)))) rs) (flat_map (fun r => Rc (r_h r)) rs ++ U) ->
+  length (originated rs) = length (executed rs) ->
+  owed rs = [] /\ U = [] /\ in_buffers rs = [] /\ Permutation (originated rs) (executed rs).
+Proof. exact counts_equal_means_nothing_pending. Qed.
+Print Assumptions C01_counts_equal_means_nothing_pending.
+
+(* non-vacuity: two complete rank executions (rank 0 sends uid 7 to rank 1, which receives and executes it) satisfy every
+   hypothesis of the composition, through the per-rank theorems, and the conclusion reads [7] == [7] *)
+Definition m7 := {| uid := 7; mdest := 1; stage := 0; hk := 0; len := 40; extra := 0 |}.
+Definition c1b : cfg := {| c_n := 2; c_p := 1; c_me := 1; c_routing := 0; c_cap := 16; c_nisw := 4; c_freq := 0;
+  c_hprog := fun _ => []; c_cbprog := fun _ => [] |}.
+Definition o0 := [RTestSend true; RTestRecv None; RTestRecv None; RWaitIR (Some (1, 1)) None; RWaitIR (Some (1, 1)) None].
+Definition o1 := [RTestRecv (Some [m7]); RTestRecv None; RTestRecv None; RWaitIR (Some (1, 1)) None; RWaitIR (Some (1, 1)) None].
+Definition st_of (r : res) : st := match r with Ok s | Blocked s | Err _ s => s | OutOfFuel => init_st 0 [] end.
+Definition two_ranks : list rk :=
+  [ {| r_cfg := c1; r_st := st_of (run_rank 1000 c1 2 [AAsync 1 7 40] o0); r_debt := [] |};
+    {| r_cfg := c1b; r_st := st_of (run_rank 1000 c1b 2 [] o1); r_debt := [] |} ].
+Lemma rng2_c cc : c_routing cc = 0 -> forall d, rng 2 d -> rng 2 (next_hop cc d).
+Proof. intros H d Hd. unfold next_hop. rewrite H. exact Hd. Qed.
+Example C01_composition_not_vacuous :
+  Forall acct two_ranks /\
+  Permutation (flat_map (fun r => map snd (sent_of (log (r_st r)))) two_ranks) (flat_map (fun r => Rc (r_h r)) two_ranks ++ []) /\
+  owed two_ranks = [] /\ in_buffers two_ranks = [] /\ originated two_ranks = [7] /\ executed two_ranks = [7].
+Proof.
+  assert (R0 : exists s, run_rank 1000 c1 2 [AAsync 1 7 40] o0 = Ok s) by (eexists; vm_compute; reflexivity).
+  assert (R1 : exists s, run_rank 1000 c1b 2 [] o1 = Ok s) by (eexists; vm_compute; reflexivity).
+  destruct R0 as (s0 & E0). destruct R1 as (s1 & E1).
+  split; [|split; [vm_compute; apply Permutation_refl|repeat split; vm_compute; reflexivity]].
+  unfold two_ranks. rewrite E0, E1. cbn [st_of].
+  constructor; [|constructor; [|constructor]]; split; cbn [r_cfg r_st r_debt].
+  - pose proof (rank_accounts c1 1000 2 [AAsync 1 7 40] o0) as H. rewrite E0 in H. exact H.
+  - pose proof (rank_conserves_at_every_cut c1 2 1000 [AAsync 1 7 40] o0 (rng2_c c1 eq_refl)) as H. rewrite E0 in H.
+    apply H; try (intros; reflexivity); try (repeat constructor; cbv; intuition congruence).
+  - pose proof (rank_accounts c1b 1000 2 [] o1) as H. rewrite E1 in H. exact H.
+  - pose proof (rank_conserves_at_every_cut c1b 2 1000 [] o1 (rng2_c c1b eq_refl)) as H. rewrite E1 in H.
+    apply H; try (intros; reflexivity); try (repeat constructor; cbv; intuition congruence).
+Qed.
